@@ -16,6 +16,7 @@ import (
 	"sort"
 	"strconv"
 	"strings"
+	"time"
 
 	"golang.org/x/tools/go/ssa"
 )
@@ -393,10 +394,15 @@ func init() {
 	x["(*strings.Builder).Reset"] = func(fr *frame, args []value) value { bld(args)[1] = []value(nil); return nil }
 
 	// ---- strconv ----
-	x["strconv.FormatInt"] = func(fr *frame, args []value) value { return strconv.FormatInt(args[0].(int64), args[1].(int)) }
+	x["strconv.FormatInt"] = func(fr *frame, args []value) value {
+		if s, ok := args[0].(SymInt); ok {
+			return "<sym " + s.T.String() + ">"
+		}
+		return strconv.FormatInt(args[0].(int64), args[1].(int))
+	}
 	x["strconv.FormatUint"] = func(fr *frame, args []value) value {
-		if _, ok := args[0].(SymInt); ok {
-			return "<symuint>"
+		if s, ok := args[0].(SymInt); ok {
+			return "<sym " + s.T.String() + ">"
 		}
 		return strconv.FormatUint(args[0].(uint64), args[1].(int))
 	}
@@ -728,7 +734,27 @@ func init() {
 		d := binop(fr.i.eng, token.SUB, types.Typ[types.Int64], timeSec(args[0]), timeSec(args[1]))
 		return binop(fr.i.eng, token.MUL, types.Typ[types.Int64], d, int64(1000000000))
 	}
-	x["(time.Time).Format"] = func(fr *frame, args []value) value { return "2026-01-01T00:00:00Z" }
+	// Format: real formatting for concrete times; for symbolic times an opaque token that is a function of
+	// the time term (equal terms give equal strings; calendar arithmetic on symbolic times is not modelled)
+	x["(time.Time).Format"] = func(fr *frame, args []value) value {
+		switch s := timeSec(args[0]).(type) {
+		case int64:
+			return time.Unix(s, 0).UTC().Format(strOf(args[1]))
+		case SymInt:
+			return "t:" + s.T.String()
+		}
+		return "t:?"
+	}
+	x["(time.Time).AddDate"] = func(fr *frame, args []value) value {
+		y, m, d := args[1].(int), args[2].(int), args[3].(int)
+		if s, ok := timeSec(args[0]).(int64); ok {
+			return mkTime(fr, time.Unix(s, 0).UTC().AddDate(y, m, d).Unix())
+		}
+		if y != 0 || m != 0 {
+			panic(pathAbort{"time.AddDate with years/months on a symbolic time"})
+		}
+		return mkTime(fr, binop(fr.i.eng, token.ADD, types.Typ[types.Int64], timeSec(args[0]), int64(d)*86400))
+	}
 	x["(time.Time).String"] = func(fr *frame, args []value) value { return "<time>" }
 	x["(time.Duration).Seconds"] = func(fr *frame, args []value) value {
 		d, ok := args[0].(int64)
